@@ -73,4 +73,23 @@ def rft (n : Nat) (w : Nat → C) (delta : C) (x : Nat → C) : Nat → C :=
 def irft (m : Nat) (wi : Nat → C) (ninv : C) (conj : C → C) (twoM1 : C) (delta_f : C) (H : Nat → C) : Nat → C :=
   fun j => ifftshift (2 * (m - 1)) (irfft (2 * (m - 1)) wi ninv conj (ifftshift m H)) j * twoM1 * delta_f
 
+/-! ### 2-D real-input variants (`rft2`, `irft2`)
+
+`numpy.fft.rfft2` halves the LAST axis (`rfft` along axis −1, then the complex `fft` along axis −2); the code shifts
+both axes with `fftshift` before and after, so along axis −2 the composition is `fftshift ∘ fft ∘ fftshift`
+(= `ft_pinned`), along axis −1 it is the 1-D `rft`; `delta**2 = delta * delta`. -/
+
+/-- `fouriertransform.rft2` on an `n × n` array `x a b` (a = axis −2, b = axis −1); the result has `n × (n/2+1)` bins -/
+def rft2 (n : Nat) (w : Nat → C) (delta : C) (x : Nat → Nat → C) : Nat → Nat → C :=
+  fun a k => ft_pinned n w delta (fun a' => rft n w delta (fun b' => x a' b') k) a
+
+/-- `fouriertransform.irft2` on an `N × m` half-spectrum `H a k` (`N = data.shape[-2]`, `m = data.shape[-1]`):
+`numpy.fft.irfft2(·, axes=(-2,-1))` is the complex `ifft` along axis −2 (length `N`, tables `wiN`, `ninvN`) followed by
+`irfft` along axis −1 (output length `2 (m − 1)`, tables `wiL`, `ninvL`); both axes are `ifftshift`ed before and after;
+the scale is `(N * delta_f)**2`, i.e. `N * delta_f` per axis — on BOTH axes the code uses `N = data.shape[-2]`
+(`nC`), not the last-axis length `2 (m − 1)`. -/
+def irft2 (N m : Nat) (wiN : Nat → C) (ninvN : C) (wiL : Nat → C) (ninvL : C) (conj : C → C) (nC : C) (delta_f : C)
+    (H : Nat → Nat → C) : Nat → Nat → C :=
+  fun a b => irft m wiL ninvL conj nC delta_f (fun k => ift_pinned N wiN ninvN nC delta_f (fun a' => H a' k) a) b
+
 end AoVerif.Fourier
